@@ -315,7 +315,7 @@ func c12Run(r *core.Run) {
 
 	case "metamorphic":
 		// a message of the C08 / C03 / C09 workloads, raw and compressed at a drawn level
-		kind := sel % 4
+		kind := sel % 6
 		x := mkBase()
 		if x == "" {
 			return
@@ -334,6 +334,17 @@ func c12Run(r *core.Run) {
 		case 3:
 			x = x[:t.Int(len(x), "c12.cut")]
 			desc = "truncated"
+		case 4:
+			// bytes that are not UTF-8 inside a comment (in front of, or inside, the unsigned envelope)
+			if i := strings.Index(x, ">"); t.Bool("c12.commentinside") && i > 0 {
+				x = x[:i+1] + "<!-- caf\xe9 \xff\xfe -->" + x[i+1:]
+			} else {
+				x = "<!-- caf\xe9 -->" + x
+			}
+			desc = "non-utf8-in-comment"
+		case 5:
+			x = "<?app note=\"na\xefve\"?>" + x
+			desc = "non-utf8-in-pi"
 		}
 		if limit != 0 && int64(len(x)) > limit {
 			// not "within the limit": covered by the boundary family
